@@ -207,7 +207,35 @@ DIRECTED = [
 ]
 
 
+def deep_chains(ctx):
+    """scale boundary: chains built as ASTs, deeper than the interpreter's stack allows for the larger ones. A RecursionError is
+    not judged; a transformer that RETURNS must have lowered every shortcut, also the one below the deep chain."""
+    from func_adl.ast.aggregate_shortcuts import aggregate_node_transformer
+
+    for n in (30, 120, 250, 400, 1200):
+        inner = astx.parse_expr("Select(ds, lambda e: len(e.jets))")
+        q = inner
+        for i in range(n):
+            q = ast.Call(func=ast.Name(id="Select", ctx=ast.Load()), args=[q, astx.parse_expr(f"lambda v{i % 5}: v{i % 5} + Count(v{i % 5}.more)" if i % 50 == 0 else f"lambda v{i % 5}: v{i % 5}")], keywords=[])
+        q = ast.Call(func=ast.Name(id="Sum", ctx=ast.Load()), args=[q], keywords=[])
+        ctx.case(f"deep-chain:{n}", True)
+        try:
+            out = aggregate_node_transformer().visit(q)
+        except RecursionError:
+            ctx.count(f"deep-chain:{n}:RecursionError (not judged)")
+            continue
+        except Exception as e:
+            ctx.violation(f"deep-chain:exc:{type(e).__name__}", f"chain of {n} operators: {type(e).__name__}: {str(e)[:120]}", {"deep": n})
+            continue
+        left = sorted({x.func.id for x in ast.walk(out) if isinstance(x, ast.Call) and isinstance(x.func, ast.Name) and x.func.id in ("len", "Count", "Sum") and len(x.args) == 1 and not x.keywords})
+        ctx.count(f"deep-chain:{n}:returned")
+        if left:
+            ctx.violation("deep-chain:shortcut-left-unlowered", f"chain of {n} operators: the transformer returned normally but left {left} un-lowered", {"deep": n})
+
+
 def shard_main(ctx):
+    if ctx.shard in (0, 1, 3):
+        deep_chains(ctx)
     if ctx.shard == 0:
         judge_folds(ctx)
         for t in DIRECTED:
